@@ -19,7 +19,9 @@
     ensures final(self).content == content, final(self).wf(), !final(self).tmp, final(self).last_modified == op_time,
         final(self).config_type == old(self).config_type, final(self).desc == old(self).desc,
         // C09: one more entry, newest last, bounded to the last 100 (oldest dropped)
-        final(self).histories@ == hist_push(old(self).histories@, HistoryItem { id: history_id, content: content, modified_time: op_time, op_user: op_user }),
+        final(self).histories@ == hist_push(old(self).histories@, HistoryItem { id: history_id, content: content, modified_time: op_time, op_user: op_user }),   // @C09
+        // C19: the newest entry carries exactly the id handed in
+        final(self).histories@.len() > 0 && final(self).histories@.last().id == history_id,   // @C19
 @@ ConfigListener::new spec
     ensures r.version == 0, r.sender_map@ =~= Map::<u64, ListenerSenderType>::empty(), r.listener@ =~= Map::<ConfigKey, Vec<u64>>::empty()
 @@ ConfigListener::add foriter 1 it
